@@ -159,6 +159,16 @@ class Interp:
             return tuple(self._seq(e.elts, env))
         if isinstance(e, ast.List):
             return list(self._seq(e.elts, env))
+        if isinstance(e, ast.Dict):
+            out: dict = {}
+            for k, v in zip(e.keys, e.values):
+                if k is None:
+                    out.update(self.ev(v, env))
+                else:
+                    out[self.ev(k, env)] = self.ev(v, env)
+            return out
+        if isinstance(e, ast.Set):
+            return set(self._seq(e.elts, env))
         if isinstance(e, ast.BinOp):
             a, b = self.ev(e.left, env), self.ev(e.right, env)
             op = type(e.op)
